@@ -577,6 +577,8 @@ class Interp(object):
                 self.on_logged(ref)
                 with action as entered:
                     ctx.check(entered is action, "__enter__ returned %r", entered)
+                    # success fields set before the body may fail must not leak into a failed end message
+                    action.add_success_fields(r="pending")
                     self._body(ref, action, depth)
                     r = self.value()
                     # success fields accumulate; a later call overrides an earlier one
